@@ -34,10 +34,14 @@ def mirror(df_peak_of_neg):
 
 def evaluate(case):
     letters, devs = case[:-1], tuple(case[-1])
-    w = ''.join(letters)
     o = S.resolve(devs)
     o['center_extrema'] = 'trough'
-    sig = S.make_signal(w, o)
+    if isinstance(letters[0], str):
+        w = ''.join(letters)
+        sig = S.make_signal(w, o)
+    else:       # free small-integer samples embedded between two regular cycles on either side
+        w = None
+        sig = np.concatenate([S.word_signal('aa'), np.array(letters, float), S.word_signal('aa')])
     ok, why, ref = precondition(np.asarray(sig, dtype=float), o)
     if not ok:
         return SKIP(why)
@@ -74,6 +78,22 @@ def evaluate(case):
         if dd:
             return VIOL(dict(sgn, kind='mirror-edges'), 'after recompute_edges the trough-centred table is not the mirror of the '
                         'peak-centred table of -x: ' + dd, evals=nev)
+    if devs in ((), ('amp',), ('b5',), ('thr1',)) and len(sig) % 2 == 0 and len(sig) // 2 >= 16:
+        # the same relation for the epoch tables of a 2-D array analysed as one recording
+        import contextlib, io
+        from bycycle.group import compute_features_2d
+        kw = S.call_kwargs(o)
+        kw.pop('return_samples', None)
+        kp = dict(kw, center_extrema='peak')
+        with contextlib.redirect_stdout(io.StringIO()):
+            e_t = compute_features_2d(np.array(sig, float).reshape(2, -1), o['fs'], o['f_range'], kw, axis=None, return_samples=True)
+            e_p = compute_features_2d(-np.array(sig, float).reshape(2, -1), o['fs'], o['f_range'], kp, axis=None, return_samples=True)
+        nev += 2
+        for e in range(2):
+            dd = diff_tables(e_t[e], mirror(e_p[e]), exact=True)
+            if dd:
+                return VIOL(dict(sgn, kind='mirror-epochs', epoch0=e == 0), 'epoch %d of compute_features_2d(axis=None): the trough-centred '
+                            'table is not the mirror of the peak-centred table of -x: %s' % (e, dd), evals=nev)
     nt = bool(dt['is_burst'].any()) and bool((dt['time_rdsym'] != .5).any())
     return OK(outcome=table_hash(dt), nontrivial=nt, evals=nev,
               sample={'is_burst': dt['is_burst'].tolist(), 'time_rdsym': dt['time_rdsym'].tolist()} if nt else None)
@@ -90,6 +110,12 @@ def spaces(tier, seed):
            ProductSpace('W(6,5)xopts', S.word_dims(al, 5) + [OPTS_Q[:2]], evaluate, bounds={'letters': al}),
            ProductSpace('W(4,5)xopts', S.word_dims(S.alphabet(4), 5) + [OPTS_Q[2:]], evaluate,
                         bounds={'letters': S.alphabet(4), 'option_sets': len(OPTS_Q[2:])})]
+    ne = 7 if tier == 'quick' else 9
+    out.append(ProductSpace('embedded{-1,0,1}^%d' % ne, [[-1, 0, 1]] * ne + [[()]], evaluate,
+                            describe="'aa' + every such run of samples over {-1,0,1} + 'aa': low-amplitude stretches full of ties (extrema of equal "
+                                     'voltage at both ends of a flank, plateaus, flat flanks)'))
+    out.append(ProductSpace('embedded{-2,0,1,3}^5', [[-2, 0, 1, 3]] * 5 + [[(), ('amp',)]], evaluate,
+                            describe="'aa' + every 5 samples over {-2,0,1,3} + 'aa' x both burst methods"))
     if tier != 'quick':
         al = S.alphabet(6, seed, extra=2)
         devs = [d for d in S.option_sets(2, [k for k in S.DEVIATIONS if k not in ('trough', 'neg', 'int16big')])]
